@@ -22,6 +22,7 @@ import (
 	"reflect"
 
 	"github.com/goplus/xgo/ast"
+	xtoken "github.com/goplus/xgo/token"
 )
 
 // -----------------------------------------------------------------------------
@@ -107,8 +108,7 @@ func formatExpr(ctx *formatCtx, expr ast.Expr, ref *ast.Expr) {
 		formatExpr(ctx, v.Key, &v.Key)
 		formatExpr(ctx, v.Value, &v.Value)
 	case *ast.FuncLit:
-		formatFuncType(ctx, v.Type)
-		formatBlockStmt(ctx, v.Body)
+		formatFuncLit(ctx, v)
 	case *ast.TypeAssertExpr:
 		formatExpr(ctx, v.X, &v.X)
 		formatType(ctx, v.Type, &v.Type)
@@ -130,6 +130,16 @@ func formatExpr(ctx *formatCtx, expr ast.Expr, ref *ast.Expr) {
 	default:
 		formatType(ctx, expr, ref)
 	}
+}
+
+func formatFuncLit(ctx *formatCtx, v *ast.FuncLit) {
+	old := ctx.enterBlock()
+	defer ctx.leaveBlock(old)
+
+	formatFuncType(ctx, v.Type)
+	ctx.insertFields(v.Type.Params)
+	ctx.insertFields(v.Type.Results)
+	formatBlockStmt(ctx, v.Body)
 }
 
 func formatRangeExpr(ctx *formatCtx, v *ast.RangeExpr) {
@@ -183,7 +193,7 @@ func formatSelectorExpr(ctx *formatCtx, v *ast.SelectorExpr, ref *ast.Expr) {
 			break
 		}
 		if imp, ok := ctx.imports[x.Name]; ok {
-			if !fmtToBuiltin(imp, v.Sel, ref) {
+			if !fmtToBuiltin(ctx, imp, v.Sel, ref) {
 				imp.isUsed = true
 			}
 		}
@@ -270,6 +280,9 @@ func formatExprStmt(ctx *formatCtx, v *ast.ExprStmt) {
 func formatAssignStmt(ctx *formatCtx, v *ast.AssignStmt) {
 	formatExprs(ctx, v.Lhs)
 	formatExprs(ctx, v.Rhs)
+	if v.Tok == xtoken.DEFINE {
+		ctx.insertIdents(v.Lhs...)
+	}
 }
 
 func formatSwitchStmt(ctx *formatCtx, v *ast.SwitchStmt) {
@@ -307,6 +320,9 @@ func formatRangeStmt(ctx *formatCtx, v *ast.RangeStmt) {
 	formatExpr(ctx, v.Key, &v.Key)
 	formatExpr(ctx, v.Value, &v.Value)
 	formatExpr(ctx, v.X, &v.X)
+	if v.Tok == xtoken.DEFINE {
+		ctx.insertIdents(v.Key, v.Value)
+	}
 	formatBlockStmt(ctx, v.Body)
 }
 
